@@ -322,7 +322,7 @@ BatchIsFold ==
 (* C15: Reset gives the initial world, keeping registrations. *)
 ResetGivesInit ==
     (last'.op = "Reset" /\ last'.why = "") =>
-        w' = [InitWorld(Cfg) EXCEPT !.regs = w.regs, !.nq = w.nq]
+        w' = [InitWorld(Cfg) EXCEPT !.regs = w.regs, !.nq = w.nq, !.gfs = w.gfs]
 
 ActionProps ==
     /\ FaultNoChange /\ LockedRejects /\ OthersUntouched /\ RemoveNeverFails /\ ChildrenKeepDeadTarget
